@@ -37,6 +37,9 @@ BLOCKHASH = chain("blockhash", 16, 160, ops=4)
 ORACLEPARAMS = chain("oracleparams", 12, 120, ops=40, tops=80)
 # the shield's withdraw period changed by the real parameter-change handler, then a withdrawal request through the real keeper (C07)
 SHIELDPARAMS = chain("shieldparams", 12, 120, ops=120, tops=200)
+# the gov tally parameters at the edges of what validation admits (quorum 0 / 1, thresholds 10^-18 / 1), set by the real parameter-change
+# handler, then the real gov.EndBlocker at the end of a voting period with nobody / an abstention / a yes / a veto (C08)
+GOVPARAMS = chain("govparams", 12, 120, ops=60, tops=100)
 VM_ASSUME = ["outside the Lean interpreter model (cases reaching them are skipped by the comparison, monitors still run): native/precompile addresses (<= 0xff), any use of an address destroyed earlier in the same transaction, call / constructor nesting deeper than 8",
              "CREATE and CREATE2 are inside the model; the address CREATE derives (SHA-256 of creator, transaction nonce and the CVM's sequence counter; no SHA-256 in the Lean base) is an input of the model: the harness reconstructs the table (creator, sequence number) -> address from the interpreter's call events, the driver checks that it is a one-to-one function, and a model run that asks for an entry the interpreter did not derive is reported as a difference; the CREATE2 address (Keccak-256) is computed by the model",
              "the VM engine's state gives every account the CreateContract permission (Burrow's default global permissions) and has no contract metadata (InitChildCode's code-hash whitelist is empty); the transaction nonce option of the CVM is empty",
@@ -73,7 +76,7 @@ PROPS = {
     "C07": dict(SHIELD, lean=["Shentu.Props.C07", "Shentu.Props.ShieldTie"], engines=SHIELD["engines"] + [SHIELDPARAMS]),
     "C08": {
         "lean": ["Shentu.Props.C08", "Shentu.Props.C04b", "Shentu.Props.C04c", "Shentu.Props.C04r", "Shentu.Props.C01m"],
-        "engines": [chain("shield", 96, 960, ops=240, tops=400), chain("oracle", 48, 480, ops=120), chain("gov", 48, 480, ops=120), chain("staking", 32, 320, ops=150), chain("bankvm", 32, 320, ops=100), MINT, REIMB, ORACLEPARAMS],
+        "engines": [chain("shield", 96, 960, ops=240, tops=400), chain("oracle", 48, 480, ops=120), chain("gov", 48, 480, ops=120), chain("staking", 32, 320, ops=150), chain("bankvm", 32, 320, ops=100), MINT, REIMB, ORACLEPARAMS, GOVPARAMS],
         "trusted": SDK_TRUST + ["a panic inside BeginBlock/EndBlock of the real application is caught by the harness (recover) and reported with its site; the begin/end-blockers of SDK modules (distribution, mint, slashing, staking) run for real in every history but are not modelled",
                                 "in the models a Go panic is the error value built by `panicE`; the theorems show that the modelled block-level functions return no error on states satisfying invariants that are proved to be preserved by every operation"],
         "assumptions": ["oracle parameters epsilon1, epsilon2 > 0 (the hypothesis EndInv of C08.oracle_endBlock_never_halts; the oracle histories keep the parameters constant): discharged against the code by the engine 'oracleparams' — the real parameter-change handler must refuse every non-positive epsilon, and under every value it accepts the real end-blocker is run on the task that makes the epsilon the whole divisor (repaired in /repo: before the repair zero was accepted and the end-blocker divided by zero)", "shield protection period > 0 (validated by the module)",
